@@ -5,6 +5,6 @@ EXPLANATION = ("Proved: tsk_variant_visit (sets exactly that genotype, reports w
                "seeded small tree sequences x sample subsets (incl. non-sample nodes) x isolated_as_missing. The kernels of "
                "genotypes.c are not under contract yet; the tree positions the decoder seeks to are proved under C06.")
 C_FUNCS = [("genotypes.c", "tsk_variant_visit"), ("genotypes.c", "tsk_variant_mark_missing")]
-BOUNDED = [{"name": "genotypes_vs_tables", "module": "standins.c03_genotypes", "timeout": 900}]
+BOUNDED = [{"name": "genotypes_vs_tables", "module": "standins.c03_genotypes", "timeout": 900, "asan": "thorough"}]
 UNVERIFIED = ["tsk_variant_decode, tsk_variant_update_genotypes_sample_list, tsk_variant_traverse, tsk_variant_get_allele_index, allele expansion (bounded only)"]
 ASSUMPTIONS = []
